@@ -63,11 +63,12 @@ theorem nnt_def (ppf : F → F) (infv a b c d α : F) (ha : 0 < a) (hb : 0 < b) 
   have h1 := not_le.mpr ha; have h2 := not_le.mpr hb; have h3 := not_le.mpr hc; have h4 := not_le.mpr hd
   simp only [number_needed_to_treat, Nat.cast_zero, Nat.cast_one, Nat.cast_ofNat, h1, h2, h3, h4, if_false] at h
   constructor
+  -- either spelling of the test (`!= 0` with the reciprocal first, or `== 0` with `inf` first) is accepted
   · intro hne
-    simp only [hne, ne_eq, not_false_eq_true, if_true] at h
+    simp only [hne, ne_eq, not_false_eq_true, not_true_eq_false, if_true, if_false] at h
     split_ifs at h <;> (simp only [Except.ok.injEq] at h; subst h; rfl)
   · intro he
-    simp only [he, ne_eq, not_true_eq_false, if_false] at h
+    simp only [he, ne_eq, not_false_eq_true, not_true_eq_false, if_true, if_false] at h
     split_ifs at h <;> (simp only [Except.ok.injEq] at h; subst h; rfl)
 
 /-- the NNT limits are the reciprocals of the risk-difference limits (documented reciprocal scale) -/
@@ -82,8 +83,10 @@ theorem nnt_limits (ppf : F → F) (infv a b c d α : F) (ha : 0 < a) (hb : 0 < 
   simp only [number_needed_to_treat, Nat.cast_zero, Nat.cast_one, Nat.cast_ofNat, h1, h2, h3, h4, if_false] at h
   refine ⟨?_, ?_, ?_⟩
   · intro hne
+    simp only [hne, ne_eq, not_false_eq_true, not_true_eq_false, if_true, if_false] at h
     split_ifs at h <;> (simp only [Except.ok.injEq] at h; subst h) <;> rfl
   · intro hne
+    simp only [hne, ne_eq, not_false_eq_true, not_true_eq_false, if_true, if_false] at h
     split_ifs at h <;> (simp only [Except.ok.injEq] at h; subst h) <;> rfl
   · split_ifs at h <;> (simp only [Except.ok.injEq] at h; subst h; rfl)
 
